@@ -6,6 +6,7 @@ import numpy as np
 from .. import common as C
 from .. import impl
 from .. import solver
+from .. import robust
 
 PARTIAL = [
     "accuracy of LSODA (relative error <= 5e-3 + 1e-3 (N + 2 strain)) and the coupling of the F block to the texture blocks through "
@@ -25,6 +26,22 @@ def _tol(N, strain):
 
 def run(ctx, res):
     rng = np.random.default_rng(ctx["seed"] + 606)
+    robust.run(res, np.random.default_rng(ctx["seed"] + 78), ctx, "C06", n_sc=(3 if not ctx["thorough"] else 12))
+    # one LONG update call (hundreds of solver steps): strain ~ 20 in a single call, and a rapidly oscillating L(t)
+    for name, fld, span in (("simple_shear_strain_50", solver.LField(np.array([[0, 0, 2.0], [0, 0, 0], [0, 0, 0]])), 50.0),
+                            ("oscillating", solver.LField(np.zeros((3, 3)), L2=np.array([[0.5, 1.0, 0], [0, -0.5, 0.3], [0, 0, 0]]), w=80.0), 8.0)):
+        scl = solver.make_scenario(rng, 0, nmax=3, regimes=(4,))
+        scl.update(field=fld, field_kind=name, t0=0.0, span=span, n_updates=1, n=6, F0=np.eye(3), chi=0.3, Mob=200.0)
+        with impl.Recorder() as recl:
+            ml, Fl, _ = solver.run_scenario(scl, record=False)
+        Fref = solver.reference_F(scl, sub=100000)
+        rel = float(np.abs(Fl[-1] - Fref).max() / max(1.0, np.abs(Fref).max()))
+        strain = solver.accumulated_strain(scl, sub=4000)
+        res.evaluations += 1
+        res.count(f"long_update:{name}:solver_steps>={min(len(recl.updates[0]['raw']) // 100 * 100, 1000)}")
+        if rel > _tol(1, strain):
+            res.violation(f"F_solution:long_update:{name}", f"one update call over [0, {span}] ({len(recl.updates[0]['raw'])} solver steps): "
+                          f"F relative error {rel:.3e} > {_tol(1, strain):.3e}", solver.scenario_json(scl))
     M = impl._minerals
     core = impl._core
     n_sc = 21 if not ctx["thorough"] else 126
